@@ -130,8 +130,14 @@ def _job(args):
                 which = [clause for (_, clause), c in v.items() if z3.is_true(mk.eval(c, model_completion=True))]
                 sc = qm.scenario_from_trace(steps, capv, handler)
                 sc['builder_order'] = order
-                res['findings'].append({'prop': pid, 'clause': ','.join(which), 'static': False, 'scenario': sc, 'known_key': 'queue:cap0-marker-lost-before-park',
-                                        'detail': 'schedule: ' + ' | '.join('%s:%s' % (s_['thread'], s_['op']) for s_ in steps)})
+                detail = 'schedule: ' + ' | '.join('%s:%s' % (s_['thread'], s_['op']) for s_ in steps)
+                res['findings'].append({'prop': pid, 'clause': ','.join(which), 'static': False, 'scenario': sc, 'known_key': 'queue:cap0-marker-lost-before-park', 'detail': detail})
+                # the model's witness may interleave the worker with the *inside* of drop(), which the replay driver (one
+                # call per action) cannot do; the listed history itself is also replayed: worker held before recv(), last
+                # handle dropped, worker released
+                canon = {'kind': 'queue', 'capacity': 0, 'handler': handler, 'builder_order': order, 'steps': [{'do': 'wait_at_point'}, {'do': 'drop'}, {'do': 'park'}]}
+                res['findings'].append({'prop': pid, 'clause': ','.join(which), 'static': False, 'scenario': canon, 'known_key': 'queue:cap0-marker-lost-before-park',
+                                        'detail': 'listed history (canonical form); model witness: ' + detail})
         if v:
             r, m, dt = pr.check(z3.Or(*v.values()), extra)
         else:
